@@ -252,7 +252,7 @@ def _worker(task):
 
 def run(ctx: Ctx) -> Report:
     total = Report(prop=ID, level="exploration", rule=RULE)
-    n_total = 1600 if ctx.quick else 40000
+    n_total = 1600 if ctx.quick else 100000
     shards = 16
     tasks = [(ctx.subseed("shard", i), n_total // shards) for i in range(shards)]
     for rep in pool_map(_worker, tasks):
